@@ -9,8 +9,10 @@ import (
 	"sort"
 	"strings"
 	"sync"
+	"sync/atomic"
 	"time"
 
+	dawn "github.com/pgavlin/dawn"
 	"github.com/pgavlin/dawn/verifharness/core"
 	"github.com/pgavlin/dawn/verifharness/pj"
 )
@@ -201,6 +203,29 @@ func c06Case(c *core.Ctx, id string) {
 			_ = x
 		}
 	}
+	// the same PRNG-driven yields at the named points inside loadModule / module.wait (hook H4)
+	// Schedules whose number is odd additionally make the goroutines that are about to wait for an
+	// already registered module rendezvous (bounded spin, no timers), so that they enter the
+	// check-for-cycles / wait sequence at the same instant.
+	var arrivals atomic.Int32
+	rendezvous := strings.HasSuffix(id, "1") || strings.HasSuffix(id, "3") || strings.HasSuffix(id, "5") || strings.HasSuffix(id, "7") || strings.HasSuffix(id, "9")
+	dawn.VerifPoint = func(name, label string) {
+		if !strings.HasPrefix(name, "module.") {
+			return
+		}
+		if rendezvous && name == "module.before-wait" {
+			n := arrivals.Add(1)
+			for i := 0; i < 200000 && arrivals.Load() < 2 && n < 2; i++ {
+				if i%64 == 63 {
+					runtime.Gosched()
+				}
+			}
+			return
+		}
+		if !rendezvous {
+			pj.PauseHook(name)
+		}
+	}
 	pj.ResetTicks(s.Root)
 	res := pj.Build(pj.BuildReq{Root: s.Root})
 	reach, cyclic := g.reach()
@@ -287,7 +312,11 @@ func runC06(c *core.Ctx) {
 		"'cyclic dependency' error for cyclic ones, cyclicity by independent DFS; non-trivial = some helper module is reachable; distinct = distinct (graph, schedule, event count)")
 	var ids []string
 	for _, nm := range []string{"three-cycle", "shared-helper-loading-another", "self-load", "two-cycle", "package-two-cycle", "six-cycle", "diamond-chain"} {
-		for k := 0; k < c.N(12, 100); k++ {
+		reps := c.N(12, 100)
+		if nm == "package-two-cycle" || nm == "two-cycle" || nm == "three-cycle" {
+			reps = c.N(300, 3000) // cycle detection races with the publication of wait edges
+		}
+		for k := 0; k < reps; k++ {
 			ids = append(ids, fmt.Sprintf("named/%s/s%d", nm, k))
 		}
 	}
@@ -326,6 +355,9 @@ func runC06(c *core.Ctx) {
 		}
 	}
 	for _, race := range []bool{false, true} {
+		if race && c.Violations() > 0 {
+			break // the plain build already refuted the property; the race build would only repeat it slowly
+		}
 		bin, env, cases := "", []string{}, want
 		timeout := 3 * time.Minute
 		if race {
